@@ -1199,10 +1199,16 @@ except_clauses:
 try_stmt:
 	TRY ':' suite except_clauses
 	{
+		if len($4) == 0 {
+			yylex.(*yyLex).SyntaxError("invalid syntax")
+		}
 		$$ = &ast.Try{StmtBase: ast.StmtBase{Pos: $<pos>$}, Body: $3, Handlers: $4}
 	}
 |	TRY ':' suite except_clauses ELSE ':' suite
 	{
+		if len($4) == 0 {
+			yylex.(*yyLex).SyntaxError("invalid syntax")
+		}
 		$$ = &ast.Try{StmtBase: ast.StmtBase{Pos: $<pos>$}, Body: $3, Handlers: $4, Orelse: $7}
 	}
 |	TRY ':' suite except_clauses FINALLY ':' suite
@@ -1211,6 +1217,9 @@ try_stmt:
 	}
 |	TRY ':' suite except_clauses ELSE ':' suite FINALLY ':' suite
 	{
+		if len($4) == 0 {
+			yylex.(*yyLex).SyntaxError("invalid syntax")
+		}
 		$$ = &ast.Try{StmtBase: ast.StmtBase{Pos: $<pos>$}, Body: $3, Handlers: $4, Orelse: $7, Finalbody: $10}
 	}
 
